@@ -260,7 +260,8 @@ def run(ck, tier):
         revs = part("random", ["random", "-seed", ck.seed, "-n", 4000 if thorough else 500], "random definition")
         for e in revs[:4]:
             ck.samples.append({"source": "random definition", "call": _describe(e)})
-        _selftest(ck, bevs + revs + evs, work)
+        if not ck.violations:   # the self-test needs events the specification accepts
+            _selftest(ck, bevs + revs + evs, work)
         ck.nontrivial = len(nontriv)
         ck.extra["builtins_exhaustive"] = "7 built-in alphabets x 256 letters x every accessor"
     finally:
